@@ -6,6 +6,8 @@ class C18(LoopCheck):
     pid = "C18"
     props = {"C18"}
     flows = ("plain", "resume")
+    thorough_schedules = ["fixed1", "fixed2", "fixed4", "adaptive_half"]
+    adaptive_N3 = ("adaptive_half",)
     required_labels = []
 
 
